@@ -414,6 +414,24 @@ func (r *Run) Violation(rule, kfKey, format string, a ...any) {
 	r.T.Fatalf("VIOLATION rule=%s", rule)
 }
 
+// ViolationOrKnown is Violation for observations that leave the model in sync
+// (conformance checks): if kfKey names a listed known finding the hit is
+// counted and true is returned so that the caller can carry on; otherwise the
+// violation is reported.
+func (r *Run) ViolationOrKnown(rule, kfKey, format string, a ...any) bool {
+	prop := strings.SplitN(rule, "/", 2)[0]
+	if prop == r.Prop && !r.shadow {
+		if f := knownFinding(prop, kfKey); f != nil {
+			gstats.mu.Lock()
+			gstats.s.KnownHits[kfKey]++
+			gstats.mu.Unlock()
+			return true
+		}
+	}
+	r.Violation(rule, kfKey, format, a...)
+	return false
+}
+
 // Checkpoint ends the run quietly if a rule of another property fired since the
 // last checkpoint.
 func (r *Run) Checkpoint() {
